@@ -371,7 +371,7 @@ func runC13(w *mon.W) {
 	}
 	for i := 0; i < w.NShards; i++ {
 		if w.Mine(i) {
-			bindRaceC13(w, i, w.Scale(600, 40000))
+			bindRaceC13(w, i, w.Scale(600, 8000))
 		}
 	}
 	// stop reached through ServeConn's shutdown while handlers are still in their FS call (and
